@@ -150,6 +150,28 @@ func init() {
 		na := fr.r.notBool(args[0].(Int))
 		return fr.r.intBinop(tokLOR, types.Typ[types.Bool], na, args[1].(Int))
 	}
+	// SameExpr(a, b): the two values are the same expression (structural identity after
+	// simplification) – decided without the solver.
+	I[zz+"SameExpr"] = func(fr *frame, fn *ssa.Function, args []Value) Value {
+		a, b := args[0].(Int), args[1].(Int)
+		if a.N == nil && b.N == nil {
+			return mkBool(a.C == b.C)
+		}
+		return mkBool(a.N == b.N)
+	}
+	// StubReturn64(fn, v): from now on calls of the named function return v (a summary the harness
+	// takes responsibility for); StubClear removes all stubs.
+	I[zz+"StubReturn64"] = func(fr *frame, fn *ssa.Function, args []Value) Value {
+		if fr.r.stubs == nil {
+			fr.r.stubs = map[string]Value{}
+		}
+		fr.r.stubs[argStr(args[0])] = args[1]
+		return nil
+	}
+	I[zz+"StubClear"] = func(fr *frame, fn *ssa.Function, args []Value) Value {
+		fr.r.stubs = nil
+		return nil
+	}
 	I[zz+"MutexHeld"] = func(fr *frame, fn *ssa.Function, args []Value) Value {
 		p := args[0].(Ptr)
 		ls := fr.r.locks[lockKey{p.O, p.Off}]
